@@ -117,6 +117,9 @@ var shapes = []struct {
 	{"groupby", "SELECT verif_panic(id, %[2]d, %[3]d) %% 7 AS g, COUNT(*) FROM t WHERE id <= %[1]d GROUP BY g", func(l int) int { return min(l, 7) }},
 	{"aggregate", "SELECT SUM(verif_panic(id, %[2]d, %[3]d)) FROM t WHERE id <= %[1]d", func(l int) int { return 1 }},
 	{"subquery", "SELECT id FROM t WHERE id <= %[1]d AND id IN (SELECT verif_panic(id, %[2]d, %[3]d) FROM t)", func(l int) int { return l }},
+	// the panic is raised while the GROUP BY's child produces a row (rowexec's reading goroutine), not in the grouping one
+	{"groupby-child-filter", "SELECT id %% 7 AS g, COUNT(*) FROM t WHERE id <= %[1]d AND verif_panic(id, %[2]d, %[3]d) >= 0 GROUP BY g", func(l int) int { return min(l, 7) }},
+	{"groupby-child-derived", "SELECT x %% 7 AS g, COUNT(*) FROM (SELECT verif_panic(id, %[2]d, %[3]d) AS x FROM t WHERE id <= %[1]d) s GROUP BY g", func(l int) int { return min(l, 7) }},
 }
 
 var modeNames = []string{"panic-string", "panic-error", "nil-deref", "panic-struct", "plain-error", "deep-stack-panic"}
@@ -190,7 +193,7 @@ func serverLevel(r *core.Run) {
 			default:
 				k = 1 + rnd.Intn(limit)
 			}
-			if sh.name == "groupby" && k <= limit && limit-k > groupByPendingMax {
+			if strings.HasPrefix(sh.name, "groupby") && k <= limit && limit-k > groupByPendingMax {
 				// known finding (via=domain): a failure in the grouping goroutine with more than 512 rows still
 				// to be read leaves the reading goroutine blocked on its channel and Wait() never returns
 				k = limit - rnd.Intn(groupByPendingMax+1)
@@ -294,7 +297,7 @@ func serverLevel(r *core.Run) {
 			}
 
 			// in-process: grouping goroutines of rowexec (errguard.Go in groupByGroupingIter.compute)
-			if sh.name == "groupby" {
+			if strings.HasPrefix(sh.name, "groupby") {
 				res := inproc.Exec(q)
 				if res.TimedOut {
 					rec.Inconclusive("inprocess-groupby-watchdog")
